@@ -39,7 +39,7 @@ class GrammarModel:
                 "inline": bool(opts and opts.expand1),
                 "keep_all": bool(opts and opts.keep_all_tokens),
                 "tree": tree,
-                "shape": self.render(tree),
+                "shape": self.render(tree, sort_alts=True),
             }
         self.terms: dict[str, dict] = {}
         for name, (tree, prio) in g.term_defs:
@@ -47,7 +47,12 @@ class GrammarModel:
         self.ignore = [str(x) for x in g.ignore]
 
     # ------------------------------------------------------------------
-    def render(self, t) -> str:
+    def render(self, t, sort_alts: bool = False) -> str:
+        """Canonical EBNF.  ``sort_alts``: alternatives are sorted - used for *rules*, whose alternatives are unordered
+        under the LALR parser the package constructs (a conflict is an error, there is no priority); the alternation
+        inside a *terminal* is a regular expression whose order matters and is kept."""
+        if sort_alts:
+            return self._render_sorted(t)
         Tree, Token = self.Tree, self.Token
         if isinstance(t, Token):
             return str(t)
@@ -77,6 +82,27 @@ class GrammarModel:
         if d == "template_usage":
             return "template(" + ", ".join(self.render(c) for c in ch) + ")"
         return f"{d}(" + ", ".join(self.render(c) for c in ch) + ")"
+
+    def _render_sorted(self, t) -> str:
+        Tree, Token = self.Tree, self.Token
+        if isinstance(t, Token) or not isinstance(t, Tree):
+            return self.render(t)
+        d, ch = t.data, t.children
+        r = self._render_sorted
+        if d == "expansions":
+            alts = sorted(r(c) for c in ch)
+            return alts[0] if len(alts) == 1 else "(" + " | ".join(alts) + ")"
+        if d == "expansion":
+            return " ".join(r(c) for c in ch) if ch else "<empty>"
+        if d == "alias":
+            return f"{r(ch[0])} -> {r(ch[1])}"
+        if d == "value":
+            return r(ch[0])
+        if d == "expr":
+            return f"({r(ch[0])})" + "".join(str(c) for c in ch[1:])
+        if d == "maybe":
+            return "[" + r(ch[0]) + "]"
+        return self.render(t)
 
     def rule(self, name: str) -> dict:
         if name not in self.rules:
